@@ -1,7 +1,7 @@
 """C07 - Evaluation is total and recoverable (structural clauses; DESIGN.md section 2, C07)."""
 import re
 
-from kern import (CallGraph, branch_edges, calls_by_name, callers, origins, short_fn, top_fn)
+from kern import (CallGraph, branch_edges, calls_by_name, calls_to, callers, origins, short_fn, top_fn)
 
 DESCRIPTION = ("C07 clauses decided: R1 call-stack/frame state is restored on every normal path "
                "(with_call_stack, eval_module, alloca_frame) and CheapCallStack push/pop have no other callers; "
@@ -38,8 +38,8 @@ UNWRAP_TABLE = {
 
 def r1_pairing(ctx, F, rule="C07.R1"):
     wcs = F.one(r"Evaluator::<'v, 'a, 'e>::with_call_stack$")
-    push = calls_by_name(wcs, PUSH)
-    pop = calls_by_name(wcs, POP)
+    push = calls_to(F, wcs, PUSH)
+    pop = calls_to(F, wcs, POP)
     if len(push) != 1 or not pop:
         ctx.bad(rule, "with_call_stack:anchor", "anchor-missing: expected one push and a pop in with_call_stack",
                 fn=wcs)
@@ -64,8 +64,8 @@ def r1_pairing(ctx, F, rule="C07.R1"):
                   "the failed-push path pops a frame it never pushed", fn=wcs)
 
     em = F.one(r"starlark::eval::<impl eval::runtime::evaluator::Evaluator<'v, 'a, 'e>>::eval_module$")
-    push = calls_by_name(em, PUSH)
-    pop = calls_by_name(em, POP)
+    push = calls_to(F, em, PUSH)
+    pop = calls_to(F, em, POP)
     if len(push) != 1 or len(pop) != 1:
         ctx.bad(rule, "eval_module:anchor", "anchor-missing: expected one push and one pop in eval_module", fn=em)
     else:
@@ -105,17 +105,20 @@ def r1_pairing(ctx, F, rule="C07.R1"):
                       "current_frame is written back on every normal path after the continuation",
                       "a path after the continuation does not restore eval.current_frame", fn=f)
 
-    # who may push/pop
+    # who may push/pop (a pure wrapper around push/pop whose callers are the pairing functions is fine)
+    from kern import unexpected_callers
     allowed = {wcs.uid, em.uid}
     for kind, pat in (("push", PUSH), ("pop", POP)):
-        sites = callers(F, pat)
-        ctx.floor(rule, "CheapCallStack::%s call sites" % kind, len(sites), 2)
-        for f, c in sites:
+        bad, n = unexpected_callers(F, pat, lambda t: t.uid in allowed)
+        ctx.floor(rule, "CheapCallStack::%s call sites" % kind, n, 2)
+        for f, c in bad:
             t = top_fn(F, f)
-            ctx.check(t.uid in allowed, rule, "who-may-%s:%s" % (kind, t.qpath),
-                      "CheapCallStack::%s called from the pairing function" % kind,
-                      "CheapCallStack::%s called outside with_call_stack/eval_module: the push/pop pairing is no "
-                      "longer enforced in one place" % kind, fn=f, line=c.line)
+            ctx.bad(rule, "who-may-%s:%s" % (kind, short_fn(t.qpath)),
+                    "CheapCallStack::%s called outside with_call_stack/eval_module (`%s`): the push/pop pairing is no "
+                    "longer enforced in one place" % (kind, t.qpath), fn=f, line=c.line)
+        if not bad:
+            ctx.ok(rule, "who-may-%s" % kind, "CheapCallStack::%s is called only from the pairing functions (%d sites)"
+                   % (kind, n))
 
 
 def guard_set(F):
@@ -188,6 +191,38 @@ def r2_recursion(ctx, F):
         else:
             ctx.ok("C07.R2", "no-unguarded-recursion:" + op,
                    "no cycle through the `%s` trampoline avoids stack_guard()/with_call_stack" % op)
+
+
+def r2b_guard_balance(ctx, F):
+    """the recursion-depth counter is never left incremented without a StackGuard that restores it: on every path
+    from a write of the thread-local depth (outside Drop) to return, a StackGuard value is constructed"""
+    n = 0
+    for f in F.fns.values():
+        if f.crate != "starlark" or "values::stack_guard::" not in f.qpath:
+            continue
+        if re.search(r"as std::ops::Drop>::drop", top_fn(F, f).qpath):
+            continue
+        sets = [c for c in f.calls if re.search(r"cell::Cell::<T>::(set|replace)$", c.name) and c.bb not in f.cleanup]
+        if not sets:
+            continue
+        guards = [st.bb for st in f.stmts if re.search(r"agg adt values::stack_guard::StackGuard::StackGuard$", st.kind)
+                  and st.bb not in f.cleanup]
+        for c in sets:
+            n += 1
+            ok = c.bb in guards or (bool(guards) and f.must_pass(c.bb, guards, f.returns()))
+            # the guard may also be built in the same block, before/after the call terminator
+            ok = ok or any(g == c.target for g in guards)
+            ctx.check(ok, "C07.R2", "depth-write-yields-guard:" + short_fn(top_fn(F, f).qpath),
+                      "every path from the write of the recursion depth to return constructs the StackGuard that "
+                      "restores it",
+                      "`%s` writes the thread-local recursion depth and can return without producing a StackGuard: "
+                      "each failed comparison leaves the depth incremented, and after enough failures every "
+                      "comparison on the thread fails with 'Too many recursion levels'" % short_fn(top_fn(F, f).qpath),
+                      fn=f, line=c.line)
+    ctx.floor("C07.R2", "writes of the recursion depth outside Drop", n, 1)
+    dr = F.find(r"<values::stack_guard::StackGuard as std::ops::Drop>::drop")
+    ctx.check(bool(dr), "C07.R2", "StackGuard:has-drop", "StackGuard restores the depth in Drop",
+              "StackGuard no longer has a Drop impl")
 
 
 def r3_errors(ctx, F):
@@ -418,8 +453,8 @@ def r6_writer(ctx, F):
     for name in ("alloc_slot", "alloc_slots", "alloc_slots_for_exprs"):
         f = F.one(r"starlark::eval::bc::writer::BcWriter::<'f>::%s$" % name)
         bodies = [f]
-        adds = calls_by_name(f, r"BcWriter::<'f>::stack_add$")
-        subs = calls_by_name(f, r"BcWriter::<'f>::stack_sub$")
+        adds = calls_to(F, f, r"BcWriter::<'f>::stack_add$")
+        subs = calls_to(F, f, r"BcWriter::<'f>::stack_sub$")
         if not adds or not subs:
             ctx.bad("C07.R6", name + ":anchor", "anchor-missing: stack_add/stack_sub not found in " + name, fn=f)
             continue
@@ -448,6 +483,7 @@ def run(ctx):
     F = ctx.facts("core")
     r1_pairing(ctx, F)
     r2_recursion(ctx, F)
+    r2b_guard_balance(ctx, F)
     r3_errors(ctx, F)
     r4_borrows(ctx, F)
     r4b_live_borrow(ctx, F)
